@@ -8,7 +8,9 @@ import (
 	"encoding/json"
 	"io"
 	"log/slog"
+	"os"
 	"testing"
+	"time"
 
 	"verifharness/vio"
 )
@@ -37,7 +39,15 @@ func TestSchedules(t *testing.T) {
 		}
 		out.Put(map[string]any{"begin": s.ID, "line": n - 1})
 		out.Flush()
+		// watchdog (real time, outside the bubble): a schedule on which the library never comes to rest - a goroutine
+		// spinning - would block synctest.Wait for ever; the schedule is reported as hung and the process restarts after it
+		wd := time.AfterFunc(time.Duration(vio.EnvInt("VERIF_HANG_S", 30))*time.Second, func() {
+			out.Put(map[string]any{"hang": s.ID, "line": n - 1})
+			out.Flush()
+			os.Exit(3)
+		})
 		tr := Run(t, s)
+		wd.Stop()
 		out.Put(tr)
 		out.Flush()
 		return nil
